@@ -74,10 +74,10 @@ TEXT = {
             "array, mixed kinds included, with exactly Go's list (sort_model), and the sort is stable; sort: key is a permutation, "
             "exact and stable up to 12 elements on every array, and -- when the non-nil keys are homogeneous (homogBy) -- "
             "ascending in the key with entries lacking the key (or holding nil) first; "
-            "sort_natural is a permutation ascending in its case-folded text, stable up to 12 elements; reverse reverses; uniq is a sublist with pairwise different elements (Go equality: 1 and 1.0 "
-            "differ), represents every input element, and keeps an appended element exactly when nothing equal precedes it; compact "
+            "sort_natural is a permutation ascending in its case-folded text, stable up to 12 elements; reverse reverses; uniq is a sublist with pairwise different elements (scalars by Go equality: 1 and 1.0 "
+            "differ; arrays and maps by what they hold whatever the Go type that holds it, nested drops resolved: []int{1}, []any{1} and []any{Drop(1)} are one element, fixes/nested-drops-resolved), represents every input element, and keeps an appended element exactly when nothing equal precedes it; compact "
             "removes exactly the nils; concat is ++ by definition (concat_spec, rfl); first/last agree with a[0]/a[-1] and a.first/a.last (nil when empty); size "
-            "is the element count (of a range a..b when a <= b and b - a < MaxInt64); join is the separator-intercalated fmt.Sprint of "
+            "is the element count (of a range a..b when a <= b and b - a < MaxInt64); join is the separator-intercalated fmt.Sprint (after values.ResolveDrops: a drop nested in an element prints as its value) of "
             "the non-nil elements when fmt.Sprint of each is modelled; map is the per-element property lookup when every lookup "
             "returns a value; typed slices, fixed arrays, ranges, ordered maps and maps convert to the same "
             "[]any as a generic slice with the same contents (drops inside resolved, nil kept); compact/reverse/first/last/uniq "
